@@ -475,7 +475,11 @@ def enum_prim(g):
             for c in (cps if plain is not None else [None]):
                 if any(k.startswith(("owned_into", "ref_into")) for t in it.attrs for k in kinds_of(t.name) if c is None or t.f["ty"] == c):
                     # README 'Using literals and patterns together': a pattern variant needs an into-only expression
-                    v.attrs.append(Instr("into", "map", container=c, member=None, action=f"k{g.mark()}()", braced=True))
+                    if g.chance(0.06):
+                        # a bare integer where the expression is expected is read as a member index (accepted; open finding F26 of C17)
+                        v.attrs.append(Instr("into", "map", container=c, member=r.randint(0, 9), action=None))
+                    else:
+                        v.attrs.append(Instr("into", "map", container=c, member=None, action=f"k{g.mark()}()", braced=True))
         it.variants.append(v)
     return it
 
